@@ -170,6 +170,77 @@ def check_consumed(kind, pattern, dt, total=9):
     return fails[:3]
 
 
+# ---- a timeline inside an agent that is moved (engulfed / released) while it runs ------------------------------------------
+class AgentMover(Process):
+    defaults = {'timestep': 1.0, 'script': {}}
+
+    def __init__(self, parameters=None):
+        super().__init__(parameters)
+        self.calls = 0
+
+    def ports_schema(self):
+        return {'one': {'*': {}}, 'two': {'*': {}}}
+
+    def next_update(self, timestep, states):
+        self.calls += 1
+        mv = self.parameters['script'].get(self.calls)
+        if not mv or mv[0] not in states[mv[1]]:
+            return {}
+        return {mv[1]: {'_move': [{'source': (mv[0],), 'target': (mv[2],)}]}}
+
+
+class PoolGrower(Process):
+    defaults = {'timestep': 1.0}
+
+    def ports_schema(self):
+        return {'pool': {'x': {'_default': 0, '_emit': True}}}
+
+    def next_update(self, timestep, states):
+        return {'pool': {'x': 1}}
+
+
+MOVED_CASES = [{'events': ev, 'moves': mv} for ev in ([[1, 100]], [[1, 100], [4, 500]], [[0, 7], [2, 50]])
+               for mv in ({'3': ['a', 'one', 'two']}, {'2': ['a', 'one', 'two']}, {})]
+# (a second move would be applied BEFORE the updates of the agent's processes, which are listed after the mover once the agent
+#  has been moved: that is the region of the recorded finding F-C01-move-inflight, witnessed separately)
+
+
+def check_moved_timeline(case, total=8):
+    """an agent that carries a timeline and a process growing the same variable is moved to another site while it runs: every
+    event sets its variable exactly once, at its time -- x(t) = (value of the last event due before t) + (ticks since)"""
+    events = [(t, {('pool', 'x'): v}) for t, v in case['events']]
+    try:
+        tl = TimelineProcess({'timeline': copy.deepcopy(events), 'time_step': 1.0})
+        eng = Engine(processes={'site1': {'a': {'timeline': tl, 'grower': PoolGrower()}},
+                                'mover': AgentMover({'script': {int(k): v for k, v in case['moves'].items()}})},
+                     topology={'mover': {'one': ('site1',), 'two': ('site2',)},
+                               'site1': {'a': {'timeline': {'global': ('global',), 'pool': ('pool',)}, 'grower': {'pool': ('pool',)}}}},
+                     display_info=False, emitter='null')
+        xs = []
+        for _ in range(total):
+            eng.update(1)
+            v = eng.state.get_value()
+            ag = (v.get('site1') or {}).get('a') or (v.get('site2') or {}).get('a')
+            xs.append(ag['pool']['x'] if ag else None)
+    except Exception as e:
+        return ['engine raised %s: %s' % (type(e).__name__, str(e)[:200])]
+    # reference: each tick k (clock k-1 at its start) the grower adds 1; an event with time <= k-1, not fired yet, fires in tick k
+    # and is combined by the engine with the grower's +1 of the same tick in listing order (timeline first: set, then +1)
+    want, x, fired = [], 0, set()
+    for k in range(1, total + 1):
+        for i, (t, v) in enumerate(case['events']):
+            if t <= k - 1 and i not in fired:
+                fired.add(i)
+                x = v
+        x += 1
+        want.append(x)
+    if xs != want:
+        k = next(i for i, (a_, b_) in enumerate(zip(xs, want)) if a_ != b_)
+        return ['moves %s, events %s: pool/x over time is %s, expected %s (first difference after tick %d: an event fired again, '
+                'or not at its time)' % (case['moves'], case['events'], xs, want, k + 1)]
+    return []
+
+
 def ser(events):
     return [[t, [[list(k), v] for k, v in ch.items()]] for t, ch in events]
 
@@ -185,6 +256,10 @@ def main():
     a = ap.parse_args()
     if a.replay:
         d = json.load(open(a.replay))['scenario']
+        if 'moved' in d:
+            fails = check_moved_timeline(d['moved'])
+            L.emit_result({'status': 'reproduced' if fails else 'not-reproduced', 'failed': fails})
+            return
         if 'consumed' in d:
             kind, pattern, dt = d['consumed']
             fails = check_consumed(kind, [tuple(x) for x in pattern], dt)
@@ -228,6 +303,15 @@ def main():
                 break
         if len(failures) >= 3:
             break
+    for ci, case in enumerate(MOVED_CASES):
+        if len(failures) >= 3:
+            break
+        evaluations += 1
+        distinct.add('moved-%d' % ci)
+        fails = check_moved_timeline(case)
+        if fails:
+            rp = L.write_replay(a.out, 'C19', 'moved%d' % ci, {'moved': case}, fails, extra={'driver': 'bounded.c19'})
+            failures.append({'id': 'C19.bounded.moved#%d: %s' % (ci, fails[0][:240]), 'replay': rp})
     for ci, (kind, pattern, dt) in enumerate(CONSUMED_CASES):
         if len(failures) >= 3:
             break
